@@ -2,30 +2,100 @@ package server
 
 // Simulation harness: registry of scenario kinds and of the kinds each property's check runs.
 
+func addKind(name string, g genCfg, props map[string]int) {
+	kinds[name] = &kindFn{gen: func(prop string, seed uint64, tier string) *Scenario { return genCore(prop, seed, tier, g) }, run: runCore}
+	for p, w := range props {
+		propKinds[p] = append(propKinds[p], struct {
+			Kind   string
+			Weight int
+		}{name, w})
+	}
+}
+
 func init() {
 	base := genCfg{profile: "mixed", nClients: [2]int{2, 5}, nOps: [2]int{5, 30}, nKeys: [2]int{1, 3}, nLids: [2]int{2, 5},
 		counts: []uint16{0, 0, 1, 2, 3, 0xfffe, 0xffff}, pUnlock: 400, pWait: 500, pFlagShow: 40, pFlagUpdate: 80, pFlagConc: 40,
 		pUnlockFirst: 80, pCancel: 80, pPriority: 60, pWaitUnl: 30, pMs: 60, pMinute: 10, pUnlim: 40, pData: 120, pAck: 0, pAofFlags: 150,
 		timeouts: []uint16{0, 0, 1, 2, 3, 5}, expireds: []uint16{0, 1, 2, 3, 5, 5, 8}, rcounts: []uint8{0, 0, 1, 2, 3, 254, 255}, maxDelayMs: 900, twoDbs: true}
-	kinds["core"] = &kindFn{gen: func(prop string, seed uint64, tier string) *Scenario { return genCore(prop, seed, tier, base) }, run: runCore}
+	addKind("core", base, map[string]int{"C01": 10, "C02": 10, "C03": 10, "C04": 8, "C05": 8, "C06": 8, "C17": 10})
+
+	// serial: one in-memory client, one foreground request at a time (the engine answers or queues
+	// synchronously), sweepers and executor concurrent: every reply field is predicted exactly
+	serial := base
+	serial.profile, serial.serial, serial.memOnly = "serial", true, true
+	serial.nClients, serial.nOps = [2]int{1, 1}, [2]int{20, 80}
+	serial.maxDelayMs = 700
+	addKind("serial", serial, map[string]int{"C01": 3, "C02": 6, "C03": 2, "C04": 3, "C05": 4, "C06": 4, "C17": 6})
+
 	// keyrace: keys that share one hash slot, exclusive (Count 0) short holds taken and released by
 	// many clients at once, so that key managers are created, recycled and looked up concurrently
 	race := genCfg{profile: "keyrace", nClients: [2]int{3, 6}, nOps: [2]int{10, 40}, nKeys: [2]int{2, 3}, nLids: [2]int{3, 6},
 		counts: []uint16{0}, uniformCount: true, pUnlock: 480, pWait: 300, timeouts: []uint16{0, 0, 0, 1}, expireds: []uint16{1, 1, 2},
 		rcounts: []uint8{0}, maxDelayMs: 3, memOnly: true, forceFastKeys: 1}
-	kinds["keyrace"] = &kindFn{gen: func(prop string, seed uint64, tier string) *Scenario { return genCore(prop, seed, tier, race) }, run: runCore}
-	propKinds["C01"] = append(propKinds["C01"], struct {
-		Kind   string
-		Weight int
-	}{"keyrace", 6})
-	propKinds["C17"] = append(propKinds["C17"], struct {
-		Kind   string
-		Weight int
-	}{"keyrace", 3})
-	for _, p := range []string{"C01", "C02", "C03", "C04", "C05", "C06", "C15", "C17"} {
+	addKind("keyrace", race, map[string]int{"C01": 6, "C02": 2, "C03": 3, "C17": 3})
+
+	// uniform: every user of a key passes the same Count c (0..3): never more than c+1 holds
+	uni := base
+	uni.profile, uni.uniformCount = "uniform-count", true
+	uni.counts = []uint16{0, 0, 1, 2, 3}
+	uni.nLids, uni.nClients = [2]int{4, 8}, [2]int{3, 6}
+	uni.pFlagUpdate, uni.pFlagShow, uni.rcounts = 0, 0, []uint8{0}
+	addKind("uniform", uni, map[string]int{"C01": 6})
+
+	// manyholders: shared holds (Count 0xffff) by up to 300 LockIds on one key: the holder list
+	// leaves its inline representation (>128 holders); unlocks, re-locks and expiries in between
+	many := genCfg{profile: "many-holders", nClients: [2]int{2, 4}, nOps: [2]int{80, 200}, nKeys: [2]int{1, 1}, nLids: [2]int{140, 300},
+		counts: []uint16{0xffff}, pUnlock: 250, pWait: 100, pUnlockFirst: 60, pFlagUpdate: 30, timeouts: []uint16{0, 1}, expireds: []uint16{3, 5, 8, 20},
+		rcounts: []uint8{0, 1, 2, 255}, maxDelayMs: 20, memOnly: true}
+	addKind("manyholders", many, map[string]int{"C02": 3, "C17": 2, "C01": 1})
+
+	// holderwaves: one key shared (Count 0xffff) by 150-420 LockIds: fill, then release oldest-first,
+	// newest-first or at random, every release possibly followed by a second unlock of the same
+	// LockId (must be refused) or a re-lock; the holder bookkeeping crosses its inline -> map-backed
+	// switch in both directions
+	kinds["holderwaves"] = &kindFn{gen: genHolderWaves, run: runCore}
+	for p, w := range map[string]int{"C02": 3, "C17": 1} {
 		propKinds[p] = append(propKinds[p], struct {
 			Kind   string
 			Weight int
-		}{"core", 10})
+		}{"holderwaves", w})
 	}
+
+	// longqueue: one or two keys, exclusive or small-Count holds, up to 200 queued requests with
+	// mixed priorities (queue representations inline -> ring -> priority ring), holds ending by
+	// unlock, expiry and cancellation while waiters time out
+	lq := genCfg{profile: "long-queue", nClients: [2]int{3, 6}, nOps: [2]int{30, 70}, nKeys: [2]int{1, 2}, nLids: [2]int{20, 200},
+		counts: []uint16{0, 0, 1, 2}, uniformCount: true, pUnlock: 220, pWait: 0, pUnlockFirst: 300, pCancel: 150, pPriority: 250,
+		timeouts: []uint16{2, 3, 5, 8, 10}, expireds: []uint16{0, 1, 1, 2, 3}, rcounts: []uint8{0, 1, 2, 3}, maxDelayMs: 60, memOnly: true, pData: 60}
+	addKind("longqueue", lq, map[string]int{"C04": 8, "C05": 4, "C03": 3, "C17": 2, "C01": 2})
+
+	// longtime: timeouts and expiries long enough to migrate to the long-wait tables (> 8
+	// re-checks), minute flags, updates that lengthen or shorten a long expiry
+	lt := base
+	lt.profile = "long-times"
+	lt.timeouts = []uint16{0, 3, 12, 20, 40, 90}
+	lt.expireds = []uint16{2, 10, 15, 30, 60, 120}
+	lt.pMinute, lt.pMs, lt.pFlagUpdate, lt.maxDelayMs = 120, 30, 200, 4000
+	lt.nOps = [2]int{5, 20}
+	addKind("longtime", lt, map[string]int{"C05": 5, "C06": 6, "C17": 2, "C03": 2})
+
+	// values: value operations (SET UNSET INCR APPEND SHIFT PUSH POP PIPELINE, with and without
+	// property headers) carried on lock, re-lock, update and unlock requests by several LockIds of
+	// one key that may hold it together; concurrent and serialised variants
+	val := base
+	val.profile, val.pData, val.pipelines = "values", 750, true
+	val.nKeys, val.nLids = [2]int{1, 2}, [2]int{2, 4}
+	val.counts = []uint16{2, 3, 0xffff, 0xffff}
+	val.pFlagUpdate, val.pUnlock, val.pMs, val.pMinute, val.pCancel, val.pWaitUnl = 150, 350, 20, 0, 30, 0
+	val.expireds = []uint16{0, 2, 3, 5, 8}
+	addKind("values", val, map[string]int{"C15": 10})
+	vals := val
+	vals.profile, vals.serial, vals.memOnly = "values-serial", true, true
+	vals.nClients, vals.nOps = [2]int{1, 1}, [2]int{30, 90}
+	addKind("values-serial", vals, map[string]int{"C15": 6})
+
+	// msheavy: millisecond timeouts and expiries
+	msk := base
+	msk.profile, msk.pMs, msk.maxDelayMs = "milliseconds", 500, 300
+	addKind("msheavy", msk, map[string]int{"C05": 3, "C06": 3})
 }
